@@ -314,28 +314,40 @@ func c04Prop(rt *rapid.T, rec *ev.Recorder) {
 			if removed > 0 && rapid.Bool().Draw(rt, "holeAsLargeAsWhatTheReorgRemoved") {
 				gap = removed
 			}
+			wrong := after + gap
+			if after > 0 {
+				// ... or the first deposit count goes backwards: 0 again, or the count of the last surviving deposit
+				switch rapid.IntRange(0, 3).Draw(rt, "backwards") {
+				case 0:
+					wrong = 0
+				case 1:
+					wrong = after - 1
+				}
+			}
 			num := uint64(1)
 			if len(kept) > 0 {
 				num = kept[len(kept)-1].Num + 1
 			}
 			d := genBridge(rt)
-			d.BlockNum, d.BlockPos, d.DepositCount = num, 0, after+gap
+			d.BlockNum, d.BlockPos, d.DepositCount = num, 0, wrong
 			bad := blkSpec{Num: num, Hash: common.BigToHash(big.NewInt(int64(num) + 7777)), Evs: []evSpec{{Kind: "bridge", Bridge: &d}}}
 			eb := B.process(bad)
 			ea := A.process(bad)
 			closeTwin(B)
 			if !errors.Is(eb, aggkitsync.ErrInconsistentState) {
-				fatal(rt, "INCONCLUSIVE: the twin accepted a deposit with count %d while it holds %d (%v)", after+gap, after, eb)
+				fatal(rt, "INCONCLUSIVE: the twin accepted a deposit with count %d while it holds %d (%v)", wrong, after, eb)
 			}
 			if !errors.Is(ea, aggkitsync.ErrInconsistentState) {
-				fatal(rt, "after Reorg(%d), which removed %d deposits, the new fork's first deposit arrives with count %d while the surviving blocks end at count %d: a node that only saw the surviving blocks reports the inconsistency (%v), this node's ProcessBlock returned %v", pt, removed, after+gap, after, eb, ea)
+				fatal(rt, "after Reorg(%d), which removed %d deposits, the new fork's first deposit arrives with count %d while the surviving blocks end at count %d: a node that only saw the surviving blocks reports the inconsistency (%v), this node's ProcessBlock returned %v", pt, removed, wrong, after, eb, ea)
 			}
 			rec.Class("new_fork_with_a_hole")
-			if gap == removed {
+			if wrong < after {
+				rec.Class("new_fork_whose_first_deposit_count_goes_backwards")
+			} else if gap == removed {
 				rec.Class("new_fork_with_a_hole_as_large_as_what_the_reorg_removed")
 				nontrivial = true
 			}
-			key += fmt.Sprintf("reorg%d-%d/%d hole%d|", pt, len(dropped), len(kept), gap)
+			key += fmt.Sprintf("reorg%d-%d/%d count%d for %d|", pt, len(dropped), len(kept), wrong, after)
 			break
 		}
 		// new fork
